@@ -32,6 +32,7 @@ type runCase struct {
 	Mode  string        `json:"mode,omitempty"`
 	NoNames bool        `json:"noNames,omitempty"`
 	Quiet   bool        `json:"quiet,omitempty"`
+	Prelude string      `json:"prelude,omitempty"`
 }
 type runResp struct {
 	R          [][]string `json:"r"`
@@ -308,6 +309,8 @@ type xrunner struct {
 	onOutput func(cs xcase, cfg string, out string)      // optional extra oracle per output
 	keyPrefix string
 	fresh     bool                        // evaluate every code in a fresh V8 context (outputs with top-level helper variables)
+	skipCfg   func(cs xcase, cfg string) bool // optional: configurations that do not apply to a case
+	prelude   string                      // script evaluated in the context before every code (not seen by esbuild)
 	quiet     bool                        // universal proxies do not log ownKeys / .call lookups
 	noNames   bool                        // do not observe constructor/function names (minify-identifiers without keep-names)
 	classify  func(exp, got string) string // maps a mismatch to a known-finding key ("" = ordinary violation)
@@ -341,6 +344,9 @@ func (x *xrunner) runBatch(w int, cases []xcase, seg string) {
 		p := pending{cs: cs, codes: []string{ref}, cfgs: []string{"ref"}}
 		seen := map[string]bool{ref: true}
 		for _, cfg := range x.cfgs {
+			if x.skipCfg != nil && x.skipCfg(cs, cfg.name) {
+				continue
+			}
 			o := cfg.opts
 			if cs.mod != nil {
 				cs.mod(&o)
@@ -368,7 +374,7 @@ func (x *xrunner) runBatch(w int, cases []xcase, seg string) {
 			continue
 		}
 		pend = append(pend, p)
-		rcs = append(rcs, runCase{Codes: p.codes, Calls: x.calls, Async: strings.HasPrefix(cs.kind, "async"), NoNames: x.noNames, Fresh: x.fresh, Quiet: x.quiet})
+		rcs = append(rcs, runCase{Codes: p.codes, Calls: x.calls, Async: strings.HasPrefix(cs.kind, "async"), NoNames: x.noNames, Fresh: x.fresh, Quiet: x.quiet, Prelude: x.prelude})
 	}
 	if len(rcs) == 0 {
 		return
